@@ -12,8 +12,8 @@ for P in mutants/*.patch; do
     ID="$(basename "$P" | cut -d_ -f1)"
     LINE="$(tools/try_patch.sh "/verif/$P" "$ID" 2>&1 | tail -1)"
     case "$LINE" in
-        *"exit=1 "*) echo "caught   $P :: $LINE" ;;
-        *) echo "MISSED   $P :: $LINE"; FAIL=1 ;;
+        *"exit=1 "*) printf "%s\n" "caught   $P :: $LINE" ;;
+        *) printf "%s\n" "MISSED   $P :: $LINE"; FAIL=1 ;;
     esac
 done
 for D in seeded/*/; do
@@ -23,8 +23,8 @@ for D in seeded/*/; do
     [ -n "$ID" ] || continue
     LINE="$(tools/try_patch.sh "/verif/$D/patch.diff" "$ID" 2>&1 | tail -1)"
     case "$LINE" in
-        *"exit=1 "*) echo "caught   $D :: $LINE" ;;
-        *) echo "MISSED   $D :: $LINE"; FAIL=1 ;;
+        *"exit=1 "*) printf "%s\n" "caught   $D :: $LINE" ;;
+        *) printf "%s\n" "MISSED   $D :: $LINE"; FAIL=1 ;;
     esac
 done
 exit $FAIL
